@@ -449,6 +449,17 @@ def write_replay(prop, payload):
     return p
 
 
+class HarnessTimeout(BaseException):
+    """the correspondence did not finish in time (BaseException: `except Exception` clauses of the
+    library under check must not swallow it)"""
+
+
+# wall-clock budget of the correspondence phase: the implementation (or the extracted model) looping on a
+# generated input must end the check with a report, not hang it
+HARNESS_BUDGET_S = {'quick': int(os.environ.get('VERIF_QUICK_BUDGET_S', '1200')),
+                    'thorough': int(os.environ.get('VERIF_THOROUGH_BUDGET_S', '14400'))}
+
+
 def impl_call(f, *a, **kw):
     """Run an implementation call, mapping exceptions to the ('err', class-name) shape the driver uses."""
     try:
@@ -528,6 +539,12 @@ def _main_check(prop, cfg, tier, seed, replay=None):
     harness = importlib.import_module('tools.harness.' + cfg['harness'])
     harness_error = None
     if exe is not None:
+        import signal
+
+        def _on_alarm(signum, frame):
+            raise HarnessTimeout()
+        old_handler = signal.signal(signal.SIGALRM, _on_alarm)
+        signal.setitimer(signal.ITIMER_REAL, HARNESS_BUDGET_S[tier])
         try:
             if replay:
                 data = json.loads(Path(replay).read_text())
@@ -536,11 +553,21 @@ def _main_check(prop, cfg, tier, seed, replay=None):
                 cases = list(harness.corpus(ctx)) if hasattr(harness, 'corpus') else []
                 cases += list(harness.gen(ctx))
             harness.evaluate(ctx, cases)
+        except HarnessTimeout:
+            import traceback
+            harness_error = traceback.format_exc()
+            log('harness timeout:\n' + harness_error[-3000:])
+            proof_broken.append('the correspondence did not finish within %d s (%d cases evaluated): the '
+                                'implementation or the model does not terminate in reasonable time on a generated '
+                                'input; the stack at the time is in harness_error' % (HARNESS_BUDGET_S[tier], ctx.n_eval))
         except Exception as e:  # a crash of the harness is a broken check, reported as such
             import traceback
             harness_error = traceback.format_exc()
             log('harness error:\n' + harness_error)
             proof_broken.append('correspondence harness crashed: %r' % (e,))
+        finally:
+            signal.setitimer(signal.ITIMER_REAL, 0)
+            signal.signal(signal.SIGALRM, old_handler)
 
     if replay:
         for r in ctx.results:
